@@ -5,6 +5,6 @@ namespace Obao.Gen.PolicyStore
 
 /-- the cache key of policy `name` in the namespace with UUID `uuid` -/
 def cacheKeyGen (uuid name : String) : String :=
-  (Obao.PolicyKey.joinClean [uuid, name])
+  ((uuid ++ "/") ++ name)
 
 end Obao.Gen.PolicyStore
